@@ -237,8 +237,10 @@ def _gamma3(ctx, z, a, b, regularized=False):
         if ctx.mag(R) - max(ctx.mag(T1), ctx.mag(T2)) > -10:
             return R
         if not pole:
-            T1 = ctx.gammainc(z, 0, b, regularized=regularized)
-            T2 = ctx.gammainc(z, 0, a, regularized=regularized)
+            # (the lower gamma functions directly: gammainc would turn a
+            # negative limit back into a generalized gamma function)
+            T1 = b and ctx._lower_gamma(z, b, regularized)
+            T2 = a and ctx._lower_gamma(z, a, regularized)
             R = T1 - T2
             # May be ok, but should probably at least print a warning
             # about possible cancellation
